@@ -138,7 +138,7 @@ def check(chk):
         loops = [n for n in body_walk(ear, nested=True) if isinstance(n, ast.For) and src(n.iter) in ('%s.values()' % saved, '%s.items()' % saved)]
         chk.judge(len(invoked) >= 1 and loops and all(any(isinstance(x, ast.Call) and isinstance(x.func, ast.Name) and x.func.id == 'try_callback'
                                                          for x in ast.walk(l)) for l in loops),
-                  'C10.swap', ear, 'every remaining saved callback is invoked through try_callback', 'some saved callbacks are never invoked')
+                  'C10.swap', ear, 'every remaining saved callback is invoked through try_callback', 'the saved callbacks are not each invoked exactly once (the first one is popped from the saved table before the others are walked): a callback is skipped or runs twice')
         chk.judge(len(pops) <= 1 and (not pops or len(invoked) >= 2), 'C10.swap', ear, 'the callback removed with popitem() is invoked too',
                   'a callback popped from the saved table is dropped without being invoked')
         tc = [n for n in body_walk(ear) if isinstance(n, ast.FunctionDef) and n.name == 'try_callback']
@@ -174,6 +174,22 @@ def check(chk):
                     sts = list(flb.at(nd))
                     if sts and all(fa.knows('self.is_defunct') is False for fa, _c in sts):
                         found = True
+        if cname == 'GeventConnection':
+            # gevent: Greenlet.kill() blocks by default and, called on the greenlet that is running close() (a failure detected in the read / write loop
+            # reaches close() through defunct()), raises GreenletExit right there; kill(block=False) only schedules the kill, so close() runs to its end
+            gkills = [(nd, c) for nd in gb.stmt_nodes() if nd.kind == 'stmt' and nd.ast is not None for c in walk_no_nested(nd.ast)
+                      if isinstance(c, ast.Call) and isinstance(c.func, ast.Attribute) and c.func.attr == 'kill']
+            if not gkills:
+                raise AnalysisError('GeventConnection.close: watcher kill() calls not found')
+            cur_g = [a.targets[0].id for a in body_walk(bodyfn) if isinstance(a, ast.Assign) and isinstance(a.targets[0], ast.Name)
+                     and isinstance(a.value, ast.Call) and src(a.value.func) in ('gevent.getcurrent', 'getcurrent')]
+            for nd, c in gkills:
+                w = src(c.func.value)
+                nonblock = any(k.arg == 'block' and isinstance(k.value, ast.Constant) and k.value.value is False for k in c.keywords)
+                not_self = bool(cur_g) and all(any(fa.knows('%s == %s' % (w, cv)) is False or fa.knows('%s is %s' % (w, cv)) is False for cv in cur_g) for fa, _c in flb.at(nd))
+                chk.judge(nonblock or not_self, 'C10.close', c, 'GeventConnection.close: %s.kill(block=False) (or never the running greenlet)' % w,
+                          'close() kills %s with a blocking kill(): when the failure was detected by that greenlet itself (EOF, socket error, decode error -> defunct -> close) GreenletExit '
+                          'is raised inside close(), the socket stays open and error_all_requests / error_all_cp_sessions never run - no pending handler is ever invoked' % w)
         if cname == 'EventletConnection':
             # a green thread that closes its own connection (EOF in the read loop, error in the write loop -> defunct -> close) must not kill itself:
             # kill() on the running green thread raises GreenletExit at once and the rest of close() / defunct() never runs
